@@ -132,19 +132,23 @@ class _Session:
         class Rec(urwid.WidgetWrap):
             _sizing = frozenset(["box"])
 
+            def __init__(self, w, tag):
+                self.tag = tag
+                super().__init__(w)
+
             def selectable(self):
                 return True
 
             def keypress(self, size, key):
                 sess.point("keypress")
                 rv = super().keypress(size, key)
-                sess.calls.append(("keypress", key, rv, tuple(size), "base"))
+                sess.calls.append(("keypress", key, rv, tuple(size), self.tag))
                 return rv
 
             def mouse_event(self, size, event, button, col, row, focus):
                 sess.point("mouse")
                 rv = self._w.mouse_event(size, event, button, col, row, focus)
-                sess.calls.append(("mouse", (event, button, col, row), bool(rv), tuple(size), "base"))
+                sess.calls.append(("mouse", (event, button, col, row), bool(rv), tuple(size), self.tag))
                 return rv
 
             def render(self, size, focus=False):
@@ -152,7 +156,10 @@ class _Session:
                     sess.point("render")
                 return super().render(size, focus)
 
-        return Rec(self.inner)
+        # a second page the application switches to (loop.widget = ...) when it sees f6
+        self.page2 = Rec(urwid.Filler(urwid.Edit("page2:", "")), "page2")
+        self.page1 = Rec(self.inner, "base")
+        return self.page1
 
     def build_launcher(self, i: int):
         """A PopUpLauncher: key 'o' opens a pop-up (shown only when MainLoop was created with pop_ups=True),
@@ -268,6 +275,11 @@ class _Session:
                     raise urwid.ExitMainLoop
                 if key == "f5":
                     self.status.set_text("f5 seen")
+                    return True
+                if key == "f6":
+                    # the application replaces its topmost widget from inside an input handler
+                    ml.widget = self.page2 if ml.widget is self.page1 else self.page1
+                    self.res.probe("root_widget_replaced_from_handler")
                     return True
                 return False
 
@@ -444,7 +456,7 @@ class _Session:
         size = (tty.cols, tty.rows)
         self.harness_render = True
         try:
-            canv = self.topmost.render(size, focus=True)
+            canv = self.ml._topmost_widget.render(size, focus=True)  # noqa: SLF001
         except Exception as e:  # noqa: BLE001
             self.harness_render = False
             self.violate("C12.2", f"fresh-render-raised:{core.exc_signature(e)}", core.format_exc(e))
@@ -547,7 +559,8 @@ class _Session:
         n = len(calls)
         sent = b"".join(bytes.fromhex(e["hex"]) for e in self.scen["events"] if e["ev"] == "bytes") + b"\x1b[19~"
         raw_all = []
-        pop_shown = False  # model: a pop-up covers the application's widget
+        launcher_open = False  # model: the launcher (part of page 1) has an open pop-up
+        page = "base"  # model: which page is loop.widget
         can_show = bool(self.scen["config"].get("pop_ups"))
         while i < n:
             c = calls[i]
@@ -560,6 +573,7 @@ class _Session:
             _, _keys_in, raw, keys_out = c
             raw_all.extend(raw)
             i += 1
+            swapped_in_batch = False
             for key in keys_out:
                 if key == "window resize":
                     continue
@@ -569,6 +583,9 @@ class _Session:
                     marks.append(calls[i][0])
                     i += 1
                 is_mouse = not isinstance(key, str)
+                if swapped_in_batch:
+                    self.res.probe("input_after_root_swap_in_same_batch")
+                pop_shown = launcher_open and can_show and page == "base"
                 c = calls[i] if i < n else None
                 if is_mouse and pop_shown and (c is None or c[0] != "mouse"):
                     # a pointer event outside the pop-up: the overlay offers it to nobody and reports it unhandled
@@ -578,7 +595,7 @@ class _Session:
                     if c is None:
                         self.violate("C12.1", "key-never-offered-to-widget", repr(key))
                         return
-                    want_who = "popup" if pop_shown else "base"
+                    want_who = "popup" if pop_shown else page
                     if not is_mouse:
                         if c[0] != "keypress" or c[1] != key:
                             self.violate("C12.1", "widget-call-out-of-order", f"expected keypress {key!r}, got {c!r}")
@@ -599,12 +616,12 @@ class _Session:
                         self.res.probe("input_routed_to_open_popup")
                     i += 1
                 for m in marks:
-                    if m == "open" and can_show:
-                        if not pop_shown:
+                    if m == "open":
+                        if can_show and not launcher_open:
                             self.res.probe("popup_opened")
-                        pop_shown = True
+                        launcher_open = True
                     elif m == "close":
-                        pop_shown = False
+                        launcher_open = False
                 if handled:
                     if i < n and calls[i][0] == "unhandled" and calls[i][1] == key:
                         self.violate("C12.1", "unhandled-called-for-handled-input", repr(key))
@@ -620,6 +637,9 @@ class _Session:
                     self.violate("C12.1", "unhandled-not-called-for-unhandled-input", f"{ukey!r}; next call {calls[i] if i < n else None!r}")
                     return
                 i += 1
+                if ukey == "f6":
+                    page = "page2" if page == "base" else "base"
+                    swapped_in_batch = True
                 if ukey == "f8":
                     break
         got = bytes(b & 0xFF for b in raw_all)
@@ -632,7 +652,7 @@ class _Session:
 KEYS = {
     "a": "61", "z": "7a", "B": "42", "up": "1b5b41", "down": "1b5b42", "enter": "0d", "tab": "09", "f5": "1b5b31357e",
     "ctrl l": "0c", "left": "1b5b44", "right": "1b5b43", "page down": "1b5b367e", "esc-a": "1b61", "backspace": "7f", "e-acute": "c3a9",
-    "o": "6f", "c": "63",
+    "o": "6f", "c": "63", "f6": "1b5b31377e",
 }  # fmt: skip
 
 
@@ -665,7 +685,7 @@ class SessionEngine(Engine):
         "real": ["MainLoop", "_posix_raw_display.Screen", "six event loops", "widgets (Frame/ListBox/Edit/Button/...)", "PopUpTarget"],
         "stub": ["tty + termios list", "resize socket pair", "os.pipe for watch_pipe", "selectors/poller/asyncio step/trio fd wait", "clock", "terminal (RefTerm)"],
     }
-    required_probes = ("restoration_checked", "order_checked", "redraw_checked_at_wait", "block_with_resize_pending", "popup_opened", "input_routed_to_open_popup")
+    required_probes = ("restoration_checked", "order_checked", "redraw_checked_at_wait", "block_with_resize_pending", "popup_opened", "input_routed_to_open_popup", "root_widget_replaced_from_handler", "input_after_root_swap_in_same_batch")
     selftest_n = 240
     reducible = ("events",)
 
@@ -707,8 +727,9 @@ class SessionEngine(Engine):
                     events.append({"ev": "bytes", "t": t, "hex": hx[:cut]})
                     t += rng.choice([0.0, 1 / 1024, 0.0625])
                     events.append({"ev": "bytes", "t": t, "hex": hx[cut:]})
-                elif rng.random() < 0.3:
-                    events.append({"ev": "bytes", "t": t, "hex": hx + KEYS[rng.choice(list(KEYS))]})
+                elif rng.random() < (0.7 if name in ("f6", "o") else 0.3):
+                    # several keys in one read: one input batch, no redraw in between
+                    events.append({"ev": "bytes", "t": t, "hex": hx + "".join(KEYS[rng.choice(list(KEYS))] for _ in range(rng.randint(1, 2)))})
                 else:
                     events.append({"ev": "bytes", "t": t, "hex": hx})
             elif r < 0.6 and cfg["mouse"]:
